@@ -23,7 +23,7 @@ Fd(n, t, as)        == [name |-> n, type |-> t, args |-> as, dep |-> FALSE, reas
 Ar(n, t)            == [name |-> n, type |-> t, hasDefault |-> FALSE, default |-> NoLit]
 ArD(n, t, d)        == [name |-> n, type |-> t, hasDefault |-> TRUE, default |-> d]
 EV(n)               == [name |-> n, dep |-> FALSE, reason |-> ""]
-Piece(ext, kind, name) == [ext |-> ext, kind |-> kind, name |-> name, fields |-> <<>>, ifaces |-> <<>>, members |-> <<>>, values |-> <<>>,
+Piece(ext, kind, name) == [ext |-> ext, kind |-> kind, name |-> name, tdirs |-> <<>>, fields |-> <<>>, ifaces |-> <<>>, members |-> <<>>, values |-> <<>>,
                            inputs |-> <<>>, locs |-> <<>>, args |-> <<>>, roots |-> <<>>, impl |-> "ok"]
 
 BuiltinScalars == {"Int", "Float", "String", "Boolean", "ID", "Date", "Time", "DateTime"}
@@ -211,6 +211,9 @@ Variations(ps) ==
   \cup {[ps EXCEPT ![i].fields = Append(@, f)] : i \in {j \in Idxs(ps) : ~ps[j].ext /\ ps[j].kind = "OBJECT" /\ ps[j].name \in {"Query", "Mut", "Post"}}, f \in NewFields}
   \cup {Append(ps, [ExtPiece("OBJECT", "Query") EXCEPT !.fields = <<f>>]) : f \in NewFields}
   \cup {Append(ps, [ExtPiece("ENUM", "Color") EXCEPT !.values = <<[EV("PINK") EXCEPT !.dep = d]>>]) : d \in BOOLEAN}
+  \* a directive applied to an `extend` piece (and to a base definition)
+  \cup {Append(ps, [ExtPiece("OBJECT", "Query") EXCEPT !.fields = <<Fd("tagged", Nm("Int"), <<>>)>>, !.tdirs = <<"tag">>])}
+  \cup {[ps EXCEPT ![PIdx(ps, "Post", "OBJECT")].tdirs = <<"tag">>]}
   \cup {Append(ps, [ExtPiece("INPUT", "Filter") EXCEPT !.inputs = <<ArD("more", Li(Nn(Nm("Filter"))), L("list", <<>>))>>])}
   \cup {Append(ps, [Piece(FALSE, "DIRECTIVE", "mark") EXCEPT !.locs = ls, !.args = as]) :
            ls \in {<<"FIELD">>, <<"QUERY", "ENUM_VALUE", "INPUT_OBJECT">>}, as \in {<<>>, <<ArD("c", Nm("Color"), L("enum", "GREEN"))>>}}
@@ -253,6 +256,7 @@ Breaks(ps) ==
   \cup {BR("interfaces", "missing-argument", [ps EXCEPT ![po].fields = [@ EXCEPT ![2] = [@ EXCEPT !.args = <<>>]]])}
   \cup {BR("interfaces", "mistyped-argument", [ps EXCEPT ![po].fields = [@ EXCEPT ![2] = [@ EXCEPT !.args = <<ArD("up", Nm("Int"), L("int", 1))>>]]])}
   \cup {BR("interfaces", "extra-required-argument", [ps EXCEPT ![po].fields = [@ EXCEPT ![2] = [@ EXCEPT !.args = Append(@, Ar("req", Nn(Nm("Int"))))]]])}
+  \cup {BR("interfaces", "extra-required-argument-on-argless-field", [ps EXCEPT ![po].fields = [@ EXCEPT ![1] = [@ EXCEPT !.args = <<Ar("fmt", Nn(Nm("String")))>>]]])}
   \cup {BR("interfaces", "implements-non-interface", [ps EXCEPT ![po].ifaces = Append(@, x)]) : x \in {"User", "Color", "Item", "Nope"}}
   \cup {BR("interfaces", "implements-via-extend", Append(ps, [ExtPiece("OBJECT", "Query") EXCEPT !.ifaces = <<"Node">>]))}
   \* roots
@@ -265,6 +269,9 @@ Breaks(ps) ==
   \cup {BR("roots", "default-query-missing", [[ps EXCEPT ![q].name = "Qry"] EXCEPT ![sc].roots = << <<"mutation", "Mut">> >>])}
   \* objects, unions, enums, duplicates
   \cup {BR("non-empty-object", "object", Append(ps, Piece(FALSE, "OBJECT", "Empty")))}
+  \cup {BR("non-empty-object", "query-root", [ps EXCEPT ![q].fields = <<>>]) : x \in IF \E i \in Idxs(ps) : ps[i].ext /\ ps[i].name = "Query" THEN {} ELSE {1}}
+  \cup {BR("non-empty-object", "mutation-root", [ps EXCEPT ![PIdx(ps, "Mut", "OBJECT")].fields = <<>>]) : x \in IF \E i \in Idxs(ps) : ps[i].ext /\ ps[i].name = "Mut" THEN {} ELSE {1}}
+  \cup {BR("non-empty-object", "custom-query-root", Append([ps EXCEPT ![sc].roots = << <<"query", "RootQ">>, <<"mutation", "Mut">> >>], Piece(FALSE, "OBJECT", "RootQ")))}
   \cup {BR("union-self", "union", [ps EXCEPT ![it].members = Append(@, "Item")])}
   \cup {BR("union-self", "union-extend", Append(ps, [ExtPiece("UNION", "Item") EXCEPT !.members = <<"Item">>]))}
   \cup {BR("enum-unique", "enum", [ps EXCEPT ![co].values = Append(@, EV("RED"))])}
